@@ -78,6 +78,7 @@ def inline_unknown(bodies, known, log=None):
             unknown[k] = b
     if not unknown:
         return bodies
+    recursive = set()
     done = {}          # key -> fully expanded helper body dict
     inlined_into = {}  # helper key -> first caller path
 
@@ -100,6 +101,14 @@ def inline_unknown(bodies, known, log=None):
             guard += 1
             if tgt not in done:
                 done[tgt] = expand(unknown[tgt], stack | {tgt})
+                # a helper that (still) calls itself is recursive: it stays a function of its own
+                for blk in done[tgt]["blocks"]:
+                    tt = blk["term"]
+                    if tt["k"] == "call" and tt.get("f") and tgt in _callee_keys(tt["f"]):
+                        recursive.add(tgt)
+            if tgt in recursive:
+                i += 1
+                continue
             g = done[tgt]
             if len(t["args"]) != g["arg_count"]:
                 i += 1
@@ -157,6 +166,8 @@ def _splice(b, bb, g):
         nb = {"stmts": [_shift(s, lo) for s in gb["stmts"]], "term": _shift_term(gb["term"], lo, bo)}
         if gb.get("cleanup") or caller_cleanup:
             nb["cleanup"] = True
+        nb["file"] = gb.get("file") or g.get("file")
+        nb["inl_from"] = _strip(g["path"])
         tk = nb["term"]["k"]
         if tk == "return":
             nb["stmts"].append({"k": "assign", "p": copy.deepcopy(call["dest"]), "r": {"k": "use", "o": {"k": "move", "p": {"l": lo}}},
